@@ -286,7 +286,7 @@ Section T.
     pose proof (same_core_inv _ _ Hc G) as G1. destruct Hc as (Hc1 & Hc2 & Hc3).
     unfold current_is_element. destruct (b_stack st1) as [|cur rest] eqn:E; [exact I|].
     destruct (on_val cur) as [| n | | | | |] eqn:Ev; try exact I.
-    destruct (N.eqb n nid); [|exact I].
+    match goal with |- Rs _ (if ?c then _ else _) => destruct c end; [|exact I].
     eapply Rs_weaken; [apply (pop_node_spec st1 true n G1)|].
     - exists cur, rest. split; [exact E|]. split; [exact Ev|]. destruct G1 as [Gs _]. rewrite E in Gs. destruct rest; [cbn in Gs; congruence|discriminate].
     - intros r (H1 & H2 & H3). split; [exact H1|]. split; congruence.
